@@ -65,10 +65,10 @@ func (g *vfGen) runMore9(slice string) bool {
 }
 
 func (g *vfGen) cell() string {
-	n := 1 + g.rng.Intn(8)
+	n := 1 + g.intn(8)
 	b := make([]byte, n)
 	for i := range b {
-		b[i] = "abcdefghijklmnopqrstuvwxyz0123456789 .-_"[g.rng.Intn(40)]
+		b[i] = "abcdefghijklmnopqrstuvwxyz0123456789 .-_"[g.intn(40)]
 	}
 	return string(b)
 }
@@ -77,12 +77,12 @@ func (g *vfGen) table(delim string, cols, rows int, nl string, ragged bool) stri
 	var sb strings.Builder
 	bad := -1
 	if ragged {
-		bad = 1 + g.rng.Intn(rows-1)
+		bad = 1 + g.intn(rows-1)
 	}
 	for r := 0; r < rows; r++ {
 		c := cols
 		if r == bad {
-			if g.rng.Intn(2) == 0 {
+			if g.intn(2) == 0 {
 				c = cols + 1
 			} else {
 				c = cols - 1
@@ -105,12 +105,12 @@ func (g *vfGen) tableEmptyCells(delim string, cols, rows int, nl string) string 
 		var cells []string
 		for i := 0; i < cols; i++ {
 			c := g.cell()
-			if g.rng.Intn(3) == 0 {
+			if g.intn(3) == 0 {
 				c = ""
 			}
 			cells = append(cells, c)
 		}
-		switch g.rng.Intn(4) {
+		switch g.intn(4) {
 		case 0:
 			cells[0] = ""
 		case 1:
@@ -131,7 +131,7 @@ func (g *vfGen) genC13() {
 		g.emit(vfOp("lines", kind, b, 0))
 		g.emit(vfOp("lines", kind, b, len(b)+1))
 		for l := secondLineEnd; l <= len(b)+1; l++ {
-			if g.thorough || l < secondLineEnd+12 || l > len(b)-3 || g.rng.Intn(6) == 0 {
+			if g.thorough || l < secondLineEnd+12 || l > len(b)-3 || g.intn(6) == 0 {
 				g.emit(vfOp("lines", kind, b, l))
 				g.emit(vfOp("dll", b, l))
 			}
@@ -144,16 +144,16 @@ func (g *vfGen) genC13() {
 	}
 	n := g.pick(60, 1500)
 	for i := 0; i < n; i++ {
-		nl := []string{"\n", "\r\n"}[g.rng.Intn(2)]
+		nl := []string{"\n", "\r\n"}[g.intn(2)]
 		// CSV / TSV tables
-		delim := []string{",", "\t"}[g.rng.Intn(2)]
+		delim := []string{",", "\t"}[g.intn(2)]
 		kind := "csv"
 		if delim == "\t" {
 			kind = "tsv"
 		}
-		cols, rows := 2+g.rng.Intn(4), 3+g.rng.Intn(5)
+		cols, rows := 2+g.intn(4), 3+g.intn(5)
 		t := g.table(delim, cols, rows, nl, false)
-		if g.rng.Intn(3) == 0 {
+		if g.intn(3) == 0 {
 			t = "# a comment line" + nl + t
 			emitCuts(kind+"-ok", t, endOfLine2(t[len("# a comment line"+nl):])+len("# a comment line"+nl))
 		} else {
@@ -168,15 +168,15 @@ func (g *vfGen) genC13() {
 		g.emit(vfOp("lines", kind+"-one", []byte(one), 0))
 		// NDJSON streams
 		var lines []string
-		k := 3 + g.rng.Intn(4)
+		k := 3 + g.intn(4)
 		for j := 0; j < k; j++ {
-			switch g.rng.Intn(5) {
+			switch g.intn(5) {
 			case 0:
 				lines = append(lines, g.jvalue(1))
 			case 1:
 				lines = append(lines, "")
 			default:
-				if g.rng.Intn(2) == 0 {
+				if g.intn(2) == 0 {
 					lines = append(lines, g.jobject(1))
 				} else {
 					lines = append(lines, g.jarray(1))
@@ -190,12 +190,12 @@ func (g *vfGen) genC13() {
 		emitCuts("nd-ok", s, endOfLine2(s))
 		// one damaged line
 		d := append([]string{}, lines...)
-		j := g.rng.Intn(len(d))
-		switch g.rng.Intn(6) {
+		j := g.intn(len(d))
+		switch g.intn(6) {
 		case 4:
-			d[j] = []string{"{", "[", "\"", " {", "[ "}[g.rng.Intn(5)]
+			d[j] = []string{"{", "[", "\"", " {", "[ "}[g.intn(5)]
 		case 5:
-			d[j] = []string{"tru", "-", "1e", "nul"}[g.rng.Intn(4)]
+			d[j] = []string{"tru", "-", "1e", "nul"}[g.intn(4)]
 		case 0:
 			d[j] = `{"a":`
 		case 1:
